@@ -184,11 +184,17 @@ fn run(ctx: &RunCtx) -> Report {
     let checker: Rc<RefCell<StateChecker>> = Default::default();
     let rawnet = RawNet::new();
     let n_raw = if scenario == 1 { 40 } else { rng.usize(3, 25) };
+    // 1 run in 3 on public addresses: the node learns its address from its peers' votes, confirms it
+    // with a self-ping and re-keys both routing tables to a BEP42 id while lookups are cached
+    let public = scenario != 3 && rng.chance(1, 3);
+    if public {
+        report.probe("public_plan_runs", 1);
+    }
     let key = krpc::signing_key(rng.bytes(32).try_into().unwrap());
     let item = Item::signed(&key, None, 1, b"x");
     let mut addrs = vec![];
     for i in 0..n_raw {
-        let addr = SocketAddrV4::new(priv_ip(90 + i), 6881);
+        let addr = SocketAddrV4::new(if public { pub_ip(&mut rng) } else { priv_ip(90 + i) }, 6881);
         let mut p = Peer::new(rng.id(), addr);
         p.k = 8;
         p.delay = rng.range(0, 100) * MS;
@@ -205,7 +211,7 @@ fn run(ctx: &RunCtx) -> Report {
         knows.truncate(rng.usize(2, n_raw));
         rawnet.with_peer(i, |p| p.knows = knows);
     }
-    let mut spec = NodeSpec::new(priv_ip(1), 6881);
+    let mut spec = NodeSpec::new(if public { pub_ip(&mut rng) } else { priv_ip(1) }, 6881);
     spec.server_mode = scenario == 3 || rng.chance(1, 2);
     spec.bootstrap = addrs.iter().take(3).map(|a| a.to_string()).collect();
     let mut settings = ServerSettings::default();
